@@ -60,6 +60,9 @@ def main():
     baseline = "--no-baseline" not in sys.argv
     if "--only" in sys.argv:
         only = sys.argv[sys.argv.index("--only") + 1].split(",")
+    tag = None
+    if "--tag" in sys.argv:
+        tag = sys.argv[sys.argv.index("--tag") + 1]
     if "--workers" in sys.argv:
         workers = int(sys.argv[sys.argv.index("--workers") + 1])
     tasks = []
@@ -69,6 +72,8 @@ def main():
         grp = os.path.basename(os.path.dirname(d))          # C18-a
         prop = grp.split("-")[0]
         if only and prop not in only:
+            continue
+        if tag and not grp.endswith("-" + tag):
             continue
         name = f"{grp}{os.path.basename(d)}"                # C18-a1
         tasks.append((name, d, prop, baseline))
